@@ -1,0 +1,38 @@
+//go:build verif
+
+// Machine-checked contracts for package data (comment-only; read by /verif/gocv).
+
+package data
+
+// Protection classes: every access to a guarded field must happen with the named lock of the same object
+// held (write lock for writes), unless the object was allocated by the accessing activation.
+
+//@ type FlowDataLocator
+//@   field locators nonnil guarded_by lmu
+//@   field variables nonnil guarded_by vmu
+
+//@ type ObjectContainer
+//@   field dataObjectsByName nonnil guarded_by mu
+//@   field dataObjects nonnil guarded_by mu
+//@   field dataObjectReferencesByName nonnil guarded_by mu
+//@   field dataObjectReferences nonnil guarded_by mu
+//@   field propertiesByName nonnil guarded_by mu
+//@   field properties nonnil guarded_by mu
+
+//@ type PropertyContainer
+//@   field items nonnil guarded_by mu
+
+//@ type HeaderContainer
+//@   field items nonnil
+
+//@ type Container
+//@   field item guarded_by mu
+
+//@ func NewDataObjectContainer
+//@   ensures result != nil && fresh(result)
+
+//@ func NewFlowDataLocator
+//@   ensures result != nil && fresh(result)
+
+//@ func NewContainer
+//@   ensures result != nil && fresh(result)
